@@ -3,6 +3,9 @@ from .common import *  # noqa
 
 TITLE = "Compartment rates of change follow the documented per-flow rate laws"
 KEYS = {"flow_rates", "comp_rates"}
+# observations whose model value is the property's specified value (a disagreement there is a failing input);
+# on the others the correspondence supports the tie and the oracle searches for the failing input
+SPEC_KEYS = {"flow_rates", "comp_rates"}
 
 
 def run(tier, seed):
